@@ -41,7 +41,7 @@ def parseApp (s : String) : Option App :=
     let l ← natList l
     let m ← parseMods m
     if n ≤ 3 ∧ t < 1000 ∧ l.all (· < 8) ∧ l.length ≤ 4 ∧ m.length ≤ 4 ∧
-        (if n = 3 then f = 0 ∨ f = 2 else f ≤ 5) then some ⟨n, t, f, l, m⟩ else none
+        (if n = 3 then f = 0 ∨ f = 2 else f ≤ 5 ∧ f ≠ 1) then some ⟨n, t, f, l, m⟩ else none
   | _ => none
 
 def strictlySorted : List Nat → Bool
@@ -148,8 +148,8 @@ def showEv : Ev → Option String
   | .started i => some ("o" ++ showInst i)
   | .startFail i => some ("f" ++ showInst i)
   | .stop i => some ("x" ++ showInst i)
-  | .cbReg c => some s!"r{c}"
-  | .cbRun c => some s!"R{c}"
+  | .cbReg _ => none   -- OnCancel happens inside caddy: not a probe event; its effect is
+  | .cbRun _ => none   -- visible as writer closes and in the writers pool
   | .wopen k => if k = 0 then none else some s!"w{k}"   -- the stderr writer is not a probe
   | .wclose k => if k = 0 then none else some s!"W{k}"
 
